@@ -144,15 +144,30 @@ Theorem C04_inprogress_reentry_fails : forall (V : Type) (m : mstate V) id,
   snd (step V m (EvForce id)) = OCycle id /\ halted V (fst (step V m (EvForce id))) = true.
 Proof. exact inprogress_reentry_fails. Qed.
 
-(* ---- stretch goal, NOT proved: laziness monotonicity for a binding that is free in
-   the body but never demanded.  The marker [e1][std.trace(m, 0)] emits m strictly before
-   e1 is evaluated; if m is absent from the output the binding was never demanded and may
-   be replaced by anything. *)
-Definition C04_goal_laziness_monotone : Prop :=
-  forall fe fc fm r x e1 e2 body m,
-    let res := run_in fe fc fm r (ELocal [(x, EIndex (EArr [e1]) (ETrace (EStr m) (ENum 0)))] body) in
+(* ---- laziness monotonicity: a binding (local, or function argument) that may be free in
+   the body but is never demanded in this run can be replaced by anything (a failing
+   expression in particular).  Demand is observed by the marker [e1][std.trace(m, 0)],
+   which emits m strictly before e1 is evaluated: if m is absent from the trace output of
+   a run that did not run out of fuel, rebinding x to any e2 gives exactly the same run. *)
+Theorem C04_laziness_monotone : forall fe fc fm r x e1 e2 body m,
+  let res := run_in fe fc fm r (ELocal [(x, EIndex (EArr [e1]) (ETrace (EStr m) (ENum 0)))] body) in
+  ~ In m (fst res) -> snd res <> OutOfFuel ->
+  run_in fe fc fm r (ELocal [(x, e2)] body) = res.
+Proof. exact laziness_monotone. Qed.
+
+Theorem C04_laziness_monotone_arg : forall fe fc fm r x e1 e2 body m,
+  let res := run_in fe fc fm r (ECall (EFunc [(x, None)] body) [EIndex (EArr [e1]) (ETrace (EStr m) (ENum 0))]) in
+  ~ In m (fst res) -> snd res <> OutOfFuel ->
+  run_in fe fc fm r (ECall (EFunc [(x, None)] body) [e2]) = res.
+Proof. exact laziness_monotone_arg. Qed.
+
+(* not proved: the same statement for an arbitrary subterm position (array item, object
+   field, any context); the implementation-only search checks it at every binding position *)
+Definition C04_goal_laziness_monotone_any_context : Prop :=
+  forall fe fc fm r c e1 e2 m,
+    let res := run_in fe fc fm r (plug c (EIndex (EArr [e1]) (ETrace (EStr m) (ENum 0)))) in
     ~ In m (fst res) -> snd res <> OutOfFuel ->
-    run_in fe fc fm r (ELocal [(x, e2)] body) = res.
+    run_in fe fc fm r (plug c e2) = res.
 
 (* ---- non-vacuity *)
 Local Open Scope N_scope.
@@ -182,6 +197,18 @@ Example C04_nonvacuous_rewrites :
   fst (run_in 12 12 12 RNil (ELocal [(nx, traced_sum)] (EAdd (EVar nx) (EVar nx)))) = [msg_t; msg_t].
 Proof. vm_compute. repeat split. Qed.
 
+(* laziness monotonicity is not vacuous: x is free in the body (in the untaken branch), the
+   marker does not fire, the run has a proper result; and when x is demanded the marker fires *)
+Example C04_nonvacuous_laziness :
+  let mk : str := [109] in
+  let body := EIf (EEq (ENum 1) (ENum 1)) traced_sum (EVar nx) in
+  fvb nx body = true /\
+  run_in 12 12 12 RNil (ELocal [(nx, EIndex (EArr [EError (EStr msg_t)]) (ETrace (EStr mk) (ENum 0)))] body)
+    = ([msg_t], Ok (JNum 3)) /\
+  fst (run_in 12 12 12 RNil (ELocal [(nx, EIndex (EArr [EError (EStr msg_t)]) (ETrace (EStr mk) (ENum 0)))] (EVar nx)))
+    = [mk].
+Proof. vm_compute. repeat split. Qed.
+
 Example C04_nonvacuous_machine :
   snd (exec nat init [EvAlloc Pending; EvAlloc Pending;
                       EvForce 0; EvForce 1; EvReturn 21%nat; EvForce 1; EvReturn 42%nat; EvForce 0; EvForce 1])
@@ -208,5 +235,8 @@ Print Assumptions C04_done_is_stable.
 Print Assumptions C04_never_back_to_pending.
 Print Assumptions C04_set_done_assert_never_fires.
 Print Assumptions C04_inprogress_reentry_fails.
+Print Assumptions C04_laziness_monotone.
+Print Assumptions C04_laziness_monotone_arg.
 Print Assumptions C04_nonvacuous_rewrites.
+Print Assumptions C04_nonvacuous_laziness.
 Print Assumptions C04_nonvacuous_machine.
